@@ -193,7 +193,8 @@ def impl(op: str) -> str:
                 type(tx).check_solution = orig
             return "ok %s %d %s" % (mu, 1 if tx.missing_unspents() else 0, "".join(guard))
         if k == "c06_cache":
-            hts = [] if a[1] == "~" else [int(x) for x in a[1].split(",")]
+            salt = int(a[1])
+            hts = [] if a[2] == "~" else [int(x) for x in a[2].split(",")]
             calls, vals = [], []
 
             from pycoin.ecdsa.secp256k1 import secp256k1_generator as G
@@ -218,7 +219,7 @@ def impl(op: str) -> str:
 
                 def signature_for_hash_type_f(self, st, blobs, vm):
                     calls.append(st)
-                    return st * 7 + 1
+                    return st * 7 + salt
 
                 def append(self, x):
                     self.stack.append(x)
@@ -318,9 +319,10 @@ def oracle(op: str, out: str):
         if not cb and (mus == "1") != (len(us) != n or any(u is None for u in us)):
             return "missing_unspents() is wrong"
     if k == "c06_cache" and out.startswith("ok"):
-        hts = [] if a[1] == "~" else [int(x) for x in a[1].split(",")]
+        salt = int(a[1])
+        hts = [] if a[2] == "~" else [int(x) for x in a[2].split(",")]
         vals = out[3:].split(" ")[0]
-        if vals != show_list([h * 7 + 1 for h in reversed(hts)]):
+        if vals != show_list([h * 7 + salt for h in reversed(hts)]):
             return "the sighash cache of checksigs returned a message computed for another hash type"
     return None
 
@@ -469,12 +471,12 @@ def gen(ctx, emit):
             emit("c06_guards %s %s %s" % (coin, show_fields(cb), show_us(us)))
     # ---- the sighash cache of one checksigs execution
     for hts in ([], [1], [1, 1], [1, 2], [2, 1, 2], [1, 2, 3, 1, 2, 3], [0x81, 1, 0x81], [3, 3, 3, 2], [0x41, 0x42, 0x41, 0xC1]):
-        emit("c06_cache " + show_list(hts))
+        emit("c06_cache %d %s" % (1 + len(hts), show_list(hts)))
     for _ in range(ctx.n(30, 1000)):
-        emit("c06_cache " + show_list([rng.choice([1, 2, 3, 0x81, 0x82, 0x83, 0x41]) for _k in range(rng.randint(1, 12))]))
+        emit("c06_cache %d %s" % (rng.randrange(1, 1000), show_list([rng.choice([1, 2, 3, 0x81, 0x82, 0x83, 0x41]) for _k in range(rng.randint(1, 12))])))
     # ---- histories
     HTS = [1, 2, 3, 0x81, 0x82, 0x83]
-    per = ctx.n(2, 40)
+    per = ctx.n(2, 20)
     for coin in COINS:
         avail = {n for n, _s, _e in S.puzzles(coin)}
         for ht in HTS:
@@ -487,7 +489,8 @@ def gen(ctx, emit):
                 tx = S.sign_tx(coin, ks, ht, n_out=n_out, version=rng.choice([1, 2]), lock_time=rng.choice([0, 499999999]),
                                sequences=[rng.choice([0xFFFFFFFF, 0xFFFFFFFE, 0, 7]) for _k in ks])
                 if tx.bad_solution_count() != 0:
-                    raise RuntimeError("pycoin could not sign %s %s 0x%x" % (coin, ks, ht))
+                    ctx.note("pycoin's own signature does not validate: %s %s 0x%x (not a C06 history; skipped)" % (coin, ks, ht))
+                    continue
                 meta = meta_of(coin, tx)
                 if meta is None:
                     continue
@@ -509,6 +512,8 @@ def gen(ctx, emit):
         for ht in (1, 0x81, 3):
             tx = S.sign_tx(coin, ["p2pkh", "p2pkh_u", "p2pk"], ht, n_out=3)
             meta = meta_of(coin, tx)
+            if meta is None:
+                continue
             head = "c06_hist %s %s %s %s" % (coin, txlib.dump_tx(tx), show_us(S.us_of(tx)), meta)
             v0 = tx.txs_out[0].coin_value
             for steps in (["us:1:none", "oval:0:%d" % (v0 + 1), "oval:0:%d" % v0, "us:1:1,51"],
